@@ -24,7 +24,8 @@ def runner_tasks(tier):
             {"module": "c20", "task": "formfactors", "kind": "bounded", "clause": "form factor values on a Q grid; Q=0 exhaustive"},
             {"module": "c09", "task": "steps", "name": "first-touch steps", "kind": "eval", "arg": {"groups": ["covalent_radius", "crystal_structure", "emission", "magnetic_ff", "xray"]}, "clause": "every first touch of these data families (explicit init first included) serves the table entries", "timeout": 1500},
             {"module": "c10", "task": "steps", "name": "private-table steps", "kind": "eval", "arg": {"modules": ["covalent_radius", "crystal_structure", "magnetic_ff", "xsf", "xsf_lines"]}, "clause": "private-table init of these modules: same entries, public untouched", "timeout": 1500},
-            {"module": "stateful", "task": "C20", "name": "stateful C20", "kind": "bounded", "clause": "form factors on caller-owned Q arrays of every layout; shared Q array across j0..J"}]
+            {"module": "stateful", "task": "C20", "name": "stateful C20", "kind": "bounded", "clause": "form factors on caller-owned Q arrays of every layout; shared Q array across j0..J"},
+            {"module": "independence", "task": "observations", "name": "independence", "kind": "bounded", "arg": {"tags": ["C20"]}, "clause": "fixed observations give the same value as the first use of the library in a fresh interpreter, in a warmed-up interpreter (twice) and in reverse order, and have their documented value", "timeout": 900}]
 
 
 REPLAY = {"module": "c20", "task": "replay"}
